@@ -11,8 +11,9 @@ extern unsigned int g_out_len, g_other_stream_writes, g_stdout_fprintf;
  * The entry name is rendered from symbolic choices: facility "t", then up to two items, each an
  * operator (none = >= > <= <) and a severity name (six valid, one unknown word), or "*". */
 struct { unsigned n; unsigned char op[2], sev[2]; int star; int nodot; } in_expr;
-static const char *opname[6] = { "", "=", ">=", ">", "<=", "<" };
-static const char *sevname[7] = { "debug", "Command", "info", "WARNING", "error", "fatal", "bogus" };
+/* (switch functions, not pointer tables: the symbolic executor folds these to string literals) */
+static const char *opname(unsigned k) { switch (k) { case 0: return ""; case 1: return "="; case 2: return ">="; case 3: return ">"; case 4: return "<="; default: return "<"; } }
+static const char *sevname(unsigned k) { switch (k) { case 0: return "debug"; case 1: return "Command"; case 2: return "info"; case 3: return "WARNING"; case 4: return "error"; case 5: return "fatal"; default: return "bogus"; } }
 
 static unsigned put(char *dst, unsigned pos, const char *s) { unsigned i; for (i = 0; i < 8 && s[i]; i++) dst[pos++] = s[i]; return pos; }
 
@@ -50,8 +51,8 @@ static void sevset_case(void)
     if (in_expr.star) text[pos++] = '*';
     else for (k = 0; k < 2; k++) if (k < in_expr.n) {
         if (k) text[pos++] = ',';
-        pos = put(text, pos, opname[in_expr.op[k]]);
-        pos = put(text, pos, sevname[in_expr.sev[k]]);
+        pos = put(text, pos, opname(in_expr.op[k]));
+        pos = put(text, pos, sevname(in_expr.sev[k]));
     }
     text[pos] = '\0';
     want_ok = spec_sevset(&want);
@@ -77,7 +78,30 @@ void h_log_sevset(void)
     in_expr.star = 1; in_expr.nodot = 0; in_expr.n = 1; sevset_case();
     in_expr.star = 0; in_expr.nodot = 1; in_expr.n = 1; in_expr.op[0] = 0; in_expr.sev[0] = 2; sevset_case();
     in_expr.nodot = 0;
+#ifdef SEV_QUICK
+    {   /* quick tier: a hand-picked list of expressions (every operator, every name, the documented
+         * list forms incl. range-then-name and unknown words), split over two jobs */
+#define SEV_CASE(N, O0, S0, O1, S1) do { in_expr.n = N; in_expr.op[0] = O0; in_expr.sev[0] = S0; in_expr.op[1] = O1; in_expr.sev[1] = S1; sevset_case(); } while (0)
+        /* literals, not a table: reads from static arrays are not folded by the symbolic executor, and a
+         * text of symbolic length makes xstrdup() allocate an object of symbolic size */
+#if SEV_QUICK == 0
+        SEV_CASE(1,0,3,0,0); SEV_CASE(1,1,3,0,0); SEV_CASE(1,2,3,0,0); SEV_CASE(1,3,3,0,0); SEV_CASE(1,4,3,0,0);
+        SEV_CASE(1,5,3,0,0); SEV_CASE(1,0,0,0,0); SEV_CASE(1,0,1,0,0); SEV_CASE(1,0,2,0,0); SEV_CASE(1,0,4,0,0);
+#else
+        SEV_CASE(1,0,5,0,0); SEV_CASE(1,0,6,0,0); SEV_CASE(2,2,4,0,0); SEV_CASE(2,3,3,0,1); SEV_CASE(2,5,1,1,3);
+        SEV_CASE(2,0,2,2,4); SEV_CASE(2,0,6,0,2); SEV_CASE(2,0,2,0,6); SEV_CASE(2,4,1,3,4); SEV_CASE(2,1,0,1,5);
+#endif
+    }
+    V_CANARY();
+    return;
+#endif
+    /* the enumeration is split over jobs by the first operator (-DSEV_O0=k): the symbolic executor
+     * slows down with the number of heap objects a single run creates */
+#ifdef SEV_O0
+    for (o0 = SEV_O0; o0 < SEV_O0 + 1; o0++) for (s0 = 0; s0 < 7; s0++) {
+#else
     for (o0 = 0; o0 < 6; o0++) for (s0 = 0; s0 < 7; s0++) {
+#endif
         in_expr.n = 1; in_expr.op[0] = (unsigned char)o0; in_expr.sev[0] = (unsigned char)s0;
         sevset_case();
 #ifdef SEVSET_SLICE
@@ -87,6 +111,7 @@ void h_log_sevset(void)
         for (o1 = 0; o1 < 6; o1++) for (s1 = 0; s1 < 7; s1++) {
 #ifdef SEVSET_SLICE
             if (s1 != 0 && s1 != 4 && s1 != 6) continue;
+            if (o0 < 2 && o1 > 1 && s1 != 6) continue;   /* keep: every range-then-name, name-then-range only with the unknown word */
 #endif
             in_expr.n = 2; in_expr.op[1] = (unsigned char)o1; in_expr.sev[1] = (unsigned char)s1;
             sevset_case();
